@@ -5,6 +5,7 @@ From Coq Require Import ZArith Reals List Bool String.
 From Flocq Require Import Core.
 From VQ Require Import Num Model.Vec Model.Scalar Proofs.ScalarProofs Glue.ScalarGlue Glue.Pin_p_fsq_quantize Glue.Pin_k_fsq_offset.
 From VQ Require Import Model.Einops Model.Layout Glue.EinopsGlueBase Glue.EinopsGlueScalar.
+From VQ Require Import Glue.Pin_fp_C05.
 Import ListNotations.
 Open Scope R_scope.
 
@@ -227,3 +228,8 @@ Theorem C05_tie_lfq_training_value :
   forall a q : R, k_lfq_ste.k_lfq_ste R_ops (fun v : R => v) a q = q.
 Proof. exact (@ScalarGlue.glue_lfq_ste_value). Qed.
 Print Assumptions C05_tie_lfq_training_value.
+
+Theorem C05_tie_source_footprint :
+  fp_C05.fp_C05 = pinned_fp_C05.
+Proof. exact (@Pin_fp_C05.pin_fp_C05). Qed.
+Print Assumptions C05_tie_source_footprint.
